@@ -103,6 +103,31 @@ func runC10(c *Ctx) {
 		hists = append(hists, randomHist(r, 6+r.Intn(8)))
 	}
 	finishHist(c, "C10", runHists(c, allCfgs(), hists), "CDP-set corpus (http, ldap-only, mixed, two URLs, unknown signer, garbage, critical, down) + random histories over {serve, handshake, refresh, restart}, on all 24 configurations storage x signature mode x fetch mode x strict")
+	// crl_cdp_strict with every other option of cdp_config left at its default (the strictness flag must not depend on
+	// crl_fetch_mode being written out), and lenient likewise
+	for _, strict := range []bool{true, false} {
+		for _, storage := range []string{"memory", "disk"} {
+			w := NewWorld(c, fmt.Sprintf("c10default_%v_%s", strict, storage))
+			w.Do(sv("/a", "down"))
+			w.AddCert("x", CertSpec{Serial: 101, CDP: []string{"/a"}})
+			w.Cfg = VCfg{Mode: "crl_only", Storage: storage, SigMode: "verify", CDPStrict: strict, Interval: "1h"} // no crl_fetch_mode
+			rep := map[string]interface{}{"crl_cdp_strict": strict, "storage": storage, "crl_fetch_mode": "(default)"}
+			if err := w.Provision(); err != nil {
+				c.Fail("", "c10 default-fetch-mode stage: provision: "+err.Error(), rep)
+			} else {
+				v := w.Do(hs("x"))
+				rep["verdict"] = v
+				want := map[bool]string{true: "error", false: "accept"}[strict]
+				if v != want {
+					c.Fail("", fmt.Sprintf("crl_cdp_strict=%v with crl_fetch_mode left at its default (%s), distribution point down: handshake %s, the property demands %s", strict, storage, v, want), rep)
+				}
+			}
+			w.Close()
+			c.Rep.Cases++
+			c.Count("default-fetch-mode")
+			c.Nontrivial(fmt.Sprintf("default-fetch|%v|%s", strict, storage))
+		}
+	}
 }
 
 func runC11(c *Ctx) {
